@@ -1195,6 +1195,223 @@ theorem initRelayer_ok_iff (addrOf : Bytes → String) (dec : String → Bool) (
       · rintro ⟨r', ⟨hr', _⟩, rfl⟩
         rw [hr] at hr'; cases hr'; rfl
 
+theorem sortRecs_perm (l : List (String × Voter)) : (sortRecs l).Perm l := List.mergeSort_perm _ _
+theorem sortKeys_perm (l : List Bytes) : (sortKeys l).Perm l := List.mergeSort_perm _ _
+theorem sortRecs_idem (l : List (String × Voter)) : sortRecs (sortRecs l) = sortRecs l :=
+  List.mergeSort_of_pairwise (msort_str_sorted (fun e : String × Voter => e.1) l)
+theorem sortKeys_idem (l : List Bytes) : sortKeys (sortKeys l) = sortKeys l :=
+  List.mergeSort_of_pairwise (msort_bytes_sorted (fun e : Bytes => e) l)
+theorem sortRecs_id (l : List (String × Voter)) (hs : l.Pairwise (fun a b => a.1 < b.1)) : sortRecs l = l :=
+  msort_str_id (fun e : String × Voter => e.1) l hs
+theorem sortKeys_id (l : List Bytes) (hs : l.Pairwise (fun a b => bytesLt a b = true)) : sortKeys l = l :=
+  msort_bytes_id (fun e : Bytes => e) l hs
+
+theorem keyedR_of_keyed (addrOf : Bytes → String) (l : List (String × Voter)) (hk : ∀ e ∈ l, e.1 = addrOf e.2.address) :
+    keyedR addrOf (l.map (·.2)) = l := by
+  rw [keyedR, List.map_map]
+  conv => rhs; rw [← List.map_id l]
+  apply List.map_congr_left
+  intro e he
+  simp only [Function.comp, id]
+  rw [← hk e he]
+
+theorem addrs_of_keyed (addrOf : Bytes → String) (l : List (String × Voter)) (hk : ∀ e ∈ l, e.1 = addrOf e.2.address) :
+    (l.map (·.2)).map (fun v => addrOf v.address) = l.map (·.1) := by
+  rw [List.map_map]
+  apply List.map_congr_left
+  intro e he
+  simp only [Function.comp]
+  rw [← hk e he]
+
+theorem queueOf_of_keyed (addrOf : Bytes → String) (st : VStatus) (l : List (String × Voter))
+    (hk : ∀ e ∈ l, e.1 = addrOf e.2.address) :
+    queueOf addrOf st (l.map (·.2)) = (l.filter (fun e => e.2.status == st)).map (·.1) := by
+  rw [queueOf, List.filter_map, List.map_map]
+  apply List.map_congr_left
+  intro e he
+  simp only [Function.comp]
+  rw [← hk e (List.mem_filter.1 he).1]
+
+theorem filterMap_decode_encode : ∀ ks : List Bytes, (∀ k ∈ ks, (decodePub k).isSome = true) →
+    (ks.filterMap decodePub).map GPubKey.encode = ks
+  | [], _ => rfl
+  | k :: ks, h => by
+    have hk := h k (List.mem_cons_self ..)
+    cases hd : decodePub k with
+    | none => rw [hd] at hk; cases hk
+    | some p =>
+      rw [List.filterMap_cons, hd]
+      simp only [List.map_cons, encode_of_decode k p hd]
+      rw [filterMap_decode_encode ks (fun x hx => h x (List.mem_cons_of_mem _ hx))]
+
+theorem filterMap_encode_decode : ∀ ps : List GPubKey, (∀ p ∈ ps, p.valid = true) →
+    (ps.map GPubKey.encode).filterMap decodePub = ps
+  | [], _ => rfl
+  | p :: ps, h => by
+    rw [List.map_cons, List.filterMap_cons, decode_of_valid p (h p (List.mem_cons_self ..))]
+    simp only
+    rw [filterMap_encode_decode ps (fun x hx => h x (List.mem_cons_of_mem _ hx))]
+
+/-- **Group well-formedness demanded by the import, read on a store**: electing period non-zero;
+    vote keys of the right length; records filed under their own address, addresses distinct; the
+    proposer has a record and a decodable address; the voter list has no repetition, does not contain
+    the proposer, and every member has a record; stored public keys decode to valid keys and are
+    distinct; vote keys distinct. -/
+def RImportable (addrOf : Bytes → String) (dec : String → Bool) (s : Relayer.State) : Prop :=
+  paramsValidate s.params = true ∧ (∀ e ∈ s.recs, voterValidate e.2 = true) ∧
+  (∀ e ∈ s.recs, e.1 = addrOf e.2.address) ∧ (s.recs.map (·.1)).Nodup ∧
+  s.proposer ∈ s.recs.map (·.1) ∧ dec s.proposer = true ∧
+  s.voters.Nodup ∧ s.proposer ∉ s.voters ∧ (∀ v ∈ s.voters, v ∈ s.recs.map (·.1)) ∧
+  (∀ k ∈ s.pubkeys, (decodePub k).map GPubKey.valid = some true) ∧ s.pubkeys.Nodup ∧
+  (s.recs.map (·.2.voteKey)).Nodup
+
+instance (addrOf : Bytes → String) (dec : String → Bool) (s : Relayer.State) : Decidable (RImportable addrOf dec s) := by
+  unfold RImportable; infer_instance
+
+/-- `s'` reproduces the relayer store `s`: everything identical except that the association lists
+    are in key order and the boarding queue is the status-derived queue in key order. -/
+structure RReproduces (s s' : Relayer.State) : Prop where
+  params : s'.params = s.params
+  proposer : s'.proposer = s.proposer
+  voters : s'.voters = s.voters
+  epoch : s'.epoch = s.epoch
+  lastElected : s'.lastElected = s.lastElected
+  accepted : s'.accepted = s.accepted
+  seq : s'.seq = s.seq
+  randao : s'.randao = s.randao
+  recs : s'.recs = sortRecs s.recs
+  pubkeys : s'.pubkeys = sortKeys s.pubkeys
+  onBoarding : s'.onBoarding = statusQueue s .onBoarding
+  offBoarding : s'.offBoarding = statusQueue s .offBoarding
+
+/-- the `Relayer` item of a store -/
+def itemOf (s : Relayer.State) : RelayerItem := ⟨s.epoch, s.proposer, s.voters, s.lastElected, s.accepted⟩
+
+/-- the genesis produced by a successful export -/
+def exportedOf (s : Relayer.State) : RGenesis :=
+  { params := s.params, relayer := some (itemOf s), sequence := s.seq, voters := (sortRecs s.recs).map (·.2),
+    pubkeys := (sortKeys s.pubkeys).filterMap decodePub, randao := s.randao }
+
+/-- **(e) import ∘ export for x/relayer.**  A store satisfying the group well-formedness conditions
+    is exported without panic, its export is imported without panic, the imported store reproduces
+    it, and a second export is identical to the first. -/
+theorem relayer_import_export (addrOf : Bytes → String) (dec : String → Bool) (s : Relayer.State)
+    (wf : RImportable addrOf dec s) :
+    ∃ g s', exportRelayerGenesis s = .ok g ∧ initRelayerGenesis addrOf dec g = .ok s' ∧ RReproduces s s' ∧
+      exportRelayerGenesis s' = .ok g := by
+  obtain ⟨w1, w2, w3, w4, w5, w6, w7, w8, w9, w10, w11, w12⟩ := wf
+  have hmem : ∀ e, e ∈ sortRecs s.recs ↔ e ∈ s.recs := fun e => (sortRecs_perm _).mem_iff
+  have hk : ∀ e ∈ sortRecs s.recs, e.1 = addrOf e.2.address := fun e he => w3 e ((hmem e).1 he)
+  have hdecodable : ∀ k ∈ sortKeys s.pubkeys, (decodePub k).isSome = true := by
+    intro k hk
+    have := w10 k ((sortKeys_perm _).mem_iff.1 hk)
+    cases hd : decodePub k with
+    | none => rw [hd] at this; cases this
+    | some p => rfl
+  have hall : (sortKeys s.pubkeys).all (fun k => (decodePub k).isSome) = true := List.all_eq_true.2 hdecodable
+  have hexp : exportRelayerGenesis s = .ok (exportedOf s) := by
+    simp [exportRelayerGenesis, hall, exportedOf, itemOf]
+  refine ⟨exportedOf s, importedState addrOf (exportedOf s) (itemOf s), hexp, ?_⟩
+  have haddrs := addrs_of_keyed addrOf (sortRecs s.recs) hk
+  have hkeysperm : ((sortRecs s.recs).map (·.1)).Perm (s.recs.map (·.1)) := (sortRecs_perm _).map _
+  have hdem : ImportDemands addrOf dec (exportedOf s) (itemOf s) := by
+    refine ⟨rfl, w1, ?_, ?_, ?_, w6, w7, w8, ?_, ?_, ?_⟩
+    · intro v hv
+      obtain ⟨e, he, rfl⟩ := List.mem_map.1 hv
+      exact w2 e ((hmem e).1 he)
+    · show (((sortRecs s.recs).map (·.2)).map (fun v => addrOf v.address)).Nodup
+      rw [haddrs]; exact hkeysperm.nodup_iff.2 w4
+    · show s.proposer ∈ ((sortRecs s.recs).map (·.2)).map (fun v => addrOf v.address)
+      rw [haddrs]; exact hkeysperm.mem_iff.2 w5
+    · intro v hv
+      show v ∈ ((sortRecs s.recs).map (·.2)).map (fun v => addrOf v.address)
+      rw [haddrs]; exact hkeysperm.mem_iff.2 (w9 v hv)
+    · intro p hp
+      obtain ⟨k, hk', hkp⟩ := List.mem_filterMap.1 hp
+      have := w10 k ((sortKeys_perm _).mem_iff.1 hk')
+      rw [hkp] at this
+      simpa using this
+    · show (((sortRecs s.recs).map (·.2)).map (·.voteKey)).Nodup
+      rw [List.map_map]
+      exact (((sortRecs_perm s.recs).map _).nodup_iff).2 w12
+  have himp := (initRelayer_ok_iff addrOf dec _ _).2 ⟨_, hdem, rfl⟩
+  have hrecs : keyedR addrOf ((sortRecs s.recs).map (·.2)) = sortRecs s.recs := keyedR_of_keyed addrOf _ hk
+  have hpk : ((sortKeys s.pubkeys).filterMap decodePub).foldl (fun ks p => keyAdd ks p.encode) [] = sortKeys s.pubkeys := by
+    have := keyAdd_fold (((sortKeys s.pubkeys).filterMap decodePub).map GPubKey.encode) []
+      (by rw [filterMap_decode_encode _ hdecodable]; simpa using (sortKeys_perm s.pubkeys).nodup_iff.2 w11)
+    rw [List.foldl_map] at this
+    rw [this, filterMap_decode_encode _ hdecodable]; simp
+  refine ⟨himp, ?_, ?_⟩
+  · refine ⟨rfl, rfl, rfl, rfl, rfl, rfl, rfl, rfl, hrecs, hpk, ?_, ?_⟩
+    · exact queueOf_of_keyed addrOf .onBoarding _ hk
+    · exact queueOf_of_keyed addrOf .offBoarding _ hk
+  · have hall2 : (sortKeys (sortKeys s.pubkeys)).all (fun k => (decodePub k).isSome) = true := by
+      rw [sortKeys_idem]; exact hall
+    simp only [exportRelayerGenesis, importedState, exportedOf, itemOf]
+    simp only [hrecs, hpk, sortRecs_idem, sortKeys_idem, hall2, Bool.not_true, Bool.false_eq_true, if_false]
+
+theorem mem_statusQueue (s : Relayer.State) (st : VStatus) (a : String) :
+    a ∈ statusQueue s st ↔ ∃ v, (a, v) ∈ s.recs ∧ v.status = st := by
+  simp only [statusQueue, List.mem_map, List.mem_filter, beq_iff_eq]
+  constructor
+  · rintro ⟨e, ⟨he, hs⟩, rfl⟩
+    exact ⟨e.2, (sortRecs_perm _).mem_iff.1 he, hs⟩
+  · rintro ⟨v, hv, hs⟩
+    exact ⟨(a, v), ⟨(sortRecs_perm _).mem_iff.2 hv, hs⟩, rfl⟩
+
+/-- the boarding queue the running chain maintains: its members are exactly the records with the
+    corresponding status -/
+def QueueDerived (s : Relayer.State) : Prop :=
+  (∀ a, a ∈ s.onBoarding ↔ ∃ v, (a, v) ∈ s.recs ∧ v.status = .onBoarding) ∧
+  (∀ a, a ∈ s.offBoarding ↔ ∃ v, (a, v) ∈ s.recs ∧ v.status = .offBoarding)
+
+/-- the import establishes `QueueDerived`; when the original satisfies it the queues have the same
+    members -/
+theorem RReproduces.queue {s s' : Relayer.State} (r : RReproduces s s') :
+    QueueDerived s' ∧ (QueueDerived s →
+      (∀ a, a ∈ s'.onBoarding ↔ a ∈ s.onBoarding) ∧ (∀ a, a ∈ s'.offBoarding ↔ a ∈ s.offBoarding)) := by
+  have hm : ∀ e, e ∈ s'.recs ↔ e ∈ s.recs := fun e => by rw [r.recs]; exact (sortRecs_perm _).mem_iff
+  refine ⟨⟨?_, ?_⟩, ?_⟩
+  · intro a; rw [r.onBoarding, mem_statusQueue]; simp only [hm]
+  · intro a; rw [r.offBoarding, mem_statusQueue]; simp only [hm]
+  · rintro ⟨q1, q2⟩
+    exact ⟨fun a => by rw [r.onBoarding, mem_statusQueue, q1], fun a => by rw [r.offBoarding, mem_statusQueue, q2]⟩
+
+/-- **(e) export ∘ import for x/relayer**: a genesis satisfying the import's demands whose voter
+    records and public keys are in key order (the form every export has) is returned verbatim by
+    exporting the imported store. -/
+theorem relayer_export_import (addrOf : Bytes → String) (dec : String → Bool) (g : RGenesis) (r : RelayerItem)
+    (hd : ImportDemands addrOf dec g r)
+    (hv : g.voters.Pairwise (fun a b => addrOf a.address < addrOf b.address))
+    (hp : g.pubkeys.Pairwise (fun a b => bytesLt a.encode b.encode = true)) :
+    ∃ s', initRelayerGenesis addrOf dec g = .ok s' ∧ exportRelayerGenesis s' = .ok g := by
+  refine ⟨_, (initRelayer_ok_iff addrOf dec g _).2 ⟨r, hd, rfl⟩, ?_⟩
+  obtain ⟨d1, _, _, _, _, _, _, _, _, d10, _⟩ := hd
+  have hpn : (g.pubkeys.map GPubKey.encode).Nodup := nodup_of_sorted_bytes GPubKey.encode g.pubkeys hp
+  have hpk : g.pubkeys.foldl (fun ks p => keyAdd ks p.encode) [] = g.pubkeys.map GPubKey.encode := by
+    have := keyAdd_fold (g.pubkeys.map GPubKey.encode) [] (by simpa using hpn)
+    rw [List.foldl_map] at this
+    rw [this]; simp
+  have hsk : sortKeys (g.pubkeys.map GPubKey.encode) = g.pubkeys.map GPubKey.encode :=
+    sortKeys_id _ (by rw [List.pairwise_map]; exact hp)
+  have hsr : sortRecs (keyedR addrOf g.voters) = keyedR addrOf g.voters :=
+    sortRecs_id _ (by rw [keyedR, List.pairwise_map]; exact hv)
+  have hvs : (keyedR addrOf g.voters).map (·.2) = g.voters := by
+    rw [keyedR, List.map_map]
+    conv => rhs; rw [← List.map_id g.voters]
+    rfl
+  have hall : (g.pubkeys.map GPubKey.encode).all (fun k => (decodePub k).isSome) = true := by
+    rw [List.all_eq_true]
+    intro k hk
+    obtain ⟨p, hp', rfl⟩ := List.mem_map.1 hk
+    rw [decode_of_valid p (d10 p hp')]; rfl
+  simp only [exportRelayerGenesis, importedState, hpk, hsk, hsr, hvs, hall, Bool.not_true, Bool.false_eq_true,
+    if_false, filterMap_encode_decode g.pubkeys d10]
+  cases g
+  cases r
+  simp only at d1
+  simp [d1]
+
 end relayer
 
 end Goat.C18
